@@ -255,9 +255,10 @@ opunit("lenprefix", "RULE_LENPREFIX",
        [M("lenprefix-mode-leak", "            up1(s);\n            s->mode = oldmode;\n            if (NULL == next_text) return NULL;", "            up1(s);\n            if (NULL == next_text) return NULL;\n            s->mode = oldmode;", "RESTORE")],
        tail_not=None, unwindset=dict(HLOOPS, **{lid: 1 for lid in TAILS.values()}), tier="quick", timeout=300)
 
-# solver choice measured per unit: minisat does not finish peg.rule.accumulate in 30 min, cadical needs 5
+# solver choice measured on all 41 peg.rule units: cadical 3-20 s (tail-call units ~300 s) where minisat needs 20-290 s and does
+# not finish peg.rule.accumulate in 30 min
 for u in units:
-    if u["id"] in ("peg.rule.accumulate",):
+    if u["id"].startswith("peg.rule."):
         u["cbmc"] = list(u.get("cbmc") or []) + ["--sat-solver", "cadical"]
 json.dump({"units": units}, open(os.path.join(V, "units", "C12.json"), "w"), indent=1)
 print("wrote %d units" % len(units))
